@@ -80,14 +80,16 @@ F = {
     "lb": {"decl": {"type": "list_base", "default": []}, "good": [[{"class_path": "Base"}]], "bad": [[{"class_path": "os.path"}], "x", [3]], "sub": ["n", "class_path"], "append": True, "cls": True},
     "cb": {"decl": {"type": "callable_base"}, "good": ["Sub1", "dsim.simtypes.make_base"], "bad": BADCLASSP[:8], "sub": ["n", "help", "tags"], "cls": True},
     "tb": {"decl": {"type": "opt_type_base", "default": None}, "good": ["dsim.simtypes.Sub1", "dsim.simtypes.Base"], "bad": BADCLASSP + [3, [1], {"class_path": "Sub1"}]},
+    "tbp": {"decl": {"type": "type_base", "default": "dsim.simtypes.Base"}, "good": ["dsim.simtypes.Sub1"], "bad": BADCLASSP + [3, [1], {"class_path": "Sub1"}]},
     "dec": {"decl": {"type": "decimal", "default": "1.5"}, "good": ["2.5", 3], "bad": ["abc", [1], "1,5", "NaN"]},
-    "ld": {"decl": {"type": "list_D", "default": []}, "good": [[{"u": 2}], []], "bad": [[{"u": "x"}], [{"zz": 1}], [3], {"u": 1}, "x"], "append": True, "sub": ["u", "0.u"]},
+    "ld": {"decl": {"type": "list_D", "default": []}, "good": [[{"u": 2}], []], "bad": [[{"u": "x"}], [{"zz": 1}], [3], {"u": 1}, "x", [{"class_path": "dsim.simtypes.D"}], [{"class_path": "dsim.simtypes.D", "init_args": {"u": "x"}}], [{"class_path": 3}]], "append": True, "sub": ["u", "0.u"]},
     "dsd": {"decl": {"type": "dict_str_D", "default": {}}, "good": [{"k": {"u": 2}}], "bad": [{"k": {"u": "x"}}, {"k": 3}, {"k": {"zz": 1}}, [1]], "sub": ["k", "k.u", "k.zz"]},
     "fnc": {"decl": {"type": "opt_callable", "default": None}, "good": ["dsim.simtypes.double", "os.path.join"], "bad": BADCLASSP[:6] + [3]},
     "pr": {"decl": {"type": "opt_probe", "default": None}, "good": ["p:x"], "bad": ["bad", 3, [1]]},
     "lpr": {"decl": {"type": "list_probe", "default": []}, "good": [["p:a", "p:b"], []], "bad": [["bad"], [3], "p:x", {"k": "p:a"}], "append": True},
     "dpr": {"decl": {"type": "dict_str_probe", "default": {}}, "good": [{"k": "p:a"}], "bad": [{"k": "bad"}, {"k": 3}, ["p:a"]], "sub": ["k", "k.j"]},
     "tpr": {"decl": {"type": "tuple_probe_int", "default": None}, "good": [["p:a", 2]], "bad": [["bad", 2], ["p:a", "x"], ["p:a"], 3]},
+    "n2": {"decl": {"type": "int", "nargs": 2, "default": [1, 2]}, "good": [[3, 4]], "bad": [[7], [1, 2, 3], 5, ["x", 1], []], "nargs": True},
     "pin": {"decl": {"type": "pos_int", "nargs": "+", "default": [1]}, "good": [[1, 2]], "bad": [["x"], [-1], 3], "nargs": True},
     "p": {"decl": {"type": "opt_path_fr", "default": None}, "good": ["good.yaml", "$W/run/good.yaml"], "bad": [], "path": True},
     "pl": {"decl": {"type": "list_path_fr", "default": [], "enable_path": True}, "good": [["good.yaml"], "list.txt"], "bad": [["nofile"], 3], "path": True, "append": True},
@@ -412,6 +414,10 @@ def do_op(p, op):
     k = op["kind"]
     if k == "args":
         kw = {"env": True} if op.get("env_flag") else {}
+        if op.get("ns") is not None:
+            from jsonargparse import Namespace
+
+            kw["namespace"] = Namespace(realise(op["ns"]))
         return p.parse_args(list(op["argv"]), **kw)
     if k == "object":
         return p.parse_object(realise(op["obj"]))
